@@ -399,8 +399,8 @@ class Walker:
 # locations of the model's `proc` record (coq/theories/Isolation.v)
 MODELLED = [
     (re.compile(r"^snowfakery\.standard_plugins\.UniqueId:UniqueNumericIdGenerator\.context_uniqifier$"), "p_uid"),
-    (re.compile(r"^snowfakery\.template_funcs:parse_date(\.<lru_cache>)?$"), "p_dates"),
-    (re.compile(r"^snowfakery\.template_funcs:_parse_datetimespec(\.<lru_cache>)?$"), "p_dts"),
+    (re.compile(r"^snowfakery\.template_funcs:(parse_date|_parse_date_text)(\.<lru_cache>)?$"), "p_dates"),
+    (re.compile(r"^snowfakery\.template_funcs:(_parse_datetimespec|_parse_datetime_text)(\.<lru_cache>)?$"), "p_dts"),
     (re.compile(r"^snowfakery\.utils\.scrambled_numbers:(mask_for_key|randomizer)(\.<lru_cache>)?$"), "p_masks"),
     (re.compile(r"^snowfakery\.[A-Za-z_.]+:RowHistoryCV$"), "p_rowhist"),
     (re.compile(r"^<process>:contextvar:RowHistory$"), "p_rowhist"),
@@ -1545,12 +1545,17 @@ def _view(opts, root=None, path0=None):
         v["uid"] = int(m.group(1)) if m else None
     except Exception:
         v["uid"] = None
-    for nm, fn in (("dates", "parse_date"), ("dts", "_parse_datetimespec")):
-        try:
-            ci = getattr(tf, fn).cache_info()
-            v[nm] = [ci.currsize, ci.misses]
-        except Exception:
-            v[nm] = None
+    # the text-keyed caches behind parse_date / parse_datetimespec (since /repo f9811a2 only text is
+    # cached; before it the public functions themselves carried the cache)
+    for nm, fns in (("dates", ("_parse_date_text", "parse_date")), ("dts", ("_parse_datetime_text", "_parse_datetimespec"))):
+        v[nm] = None
+        for fn in fns:
+            try:
+                ci = getattr(tf, fn).cache_info()
+                v[nm] = [ci.currsize, ci.misses]
+                break
+            except Exception:
+                continue
     try:
         x = RowHistoryCV.get(None)
         v["cv_set"] = x is not None
